@@ -95,6 +95,7 @@ def run(ctx, spec):
       if b == 0:
         # every shard contributes the two families that are expensive to make
         arts.append(workloads.rsa_artifact(rng, 'lhw'))
+        arts.append(workloads.rsa_artifact(rng, 'keypair-collision'))
         while True:
           a = workloads.rsa_artifact(rng, 'smooth')
           if (a['q'] - 1) % 65537 or True:
